@@ -194,7 +194,11 @@ Definition do_start (s : st) (h cb path : nat) (interval : Z) (fail : nat) : st 
       (upd_h s2 h (fun x => h_set_active true (h_set_chain (c :: h_chain x) x)), 0)
   end.
 
-(* uv_fs_poll_stop, fs-poll.c:116-135 *)
+(* uv_fs_poll_stop, fs-poll.c:116-135.  The timer is closed only when it is active (armed).  When
+   it is idle a stat is in flight; when it is TReady (already taken into the ready queue of the
+   uv__run_timers pass that is running -- stop called from another timer's callback) it is
+   inactive too: nothing happens now, timer_cb still runs later in the pass and (since 56a9a49)
+   tears the context down there *)
 Definition do_stop (s : st) (h : nat) : st :=
   if negb (h_active (geth s h)) then s else
   let s1 := match h_chain (geth s h) with
@@ -368,11 +372,17 @@ Definition collect (s : st) (items : list ritem) : st :=
   | _ => set_ut s1 (filter (fun u => negb (snd (fst u) <=? now s)) (ut s))
   end.
 
-(* timer_cb, fs-poll.c:178-188: the timer has fired (inactive again), a stat is submitted --
-   whatever the handle's state is by now (the asserts are compiled out with NDEBUG) *)
+(* timer_cb, fs-poll.c:178-199: the timer has fired (inactive again).  Since 56a9a49 (fx = true) a
+   context whose handle has been stopped, or which has been superseded -- uv_fs_poll_stop / stop +
+   start called from another timer's callback in this pass, after this timer went to the ready
+   queue -- closes its timer right here; otherwise a stat is submitted.  History (fx = false): the
+   stat was submitted whatever the handle's state (and an assert failed in debug builds). *)
 Definition timer_fire (s : st) (c : nat) : st :=
-  let s1 := upd_c s c (fun x => c_set_inflight true (c_set_start (now s) (c_set_timer TIdle x))) in
-  set_inflight s1 (inflight s1 ++ [c]).
+  let h := c_parent (getc s c) in
+  if fx && (negb (h_active (geth s h)) || negb (is_head s h c)) then close_timer s c
+  else
+    let s1 := upd_c s c (fun x => c_set_inflight true (c_set_start (now s) (c_set_timer TIdle x))) in
+    set_inflight s1 (inflight s1 ++ [c]).
 
 Section Timers.
 Variable beh : nat -> list op.
